@@ -17,6 +17,7 @@
      "start"  a,b,c = vx,vy,vz mm/s, w = yaw rate deg/s      (non-blocking)
      "startcircle" a = +-1, c = radius mm, v = velocity mm/s (non-blocking)
      "stop" | "raise" (the body raises here)
+     "wait"   a = ms: the body itself lets time pass (its own time.sleep) -- requests nothing
      PositionHlCommander only:  "goto" a,b,c = x,y,z mm, v = velocity (0 = default), w = 1: z default
                                 "setv" v | "seth" c | "setl" c   (default velocity/height/landing height)
    Readings fixed in DESIGN 3.1(9) and in harness/props/C17.py (assumptions).                        *)
